@@ -22,6 +22,14 @@ import (
 //verif:guarded Analyzer mu records
 //verif:guarded MakeHoleRecords mu scores
 
+// C16 "mutexes around every shared map": every method of these types (and every
+// function literal inside them), whether or not it has a contract of its own,
+// is swept for accesses to the guarded fields without the lock.
+//
+//verif:sweep-type Controller props=C16 kinds=lock
+//verif:sweep-type Analyzer props=C16 kinds=lock
+//verif:sweep-type MakeHoleRecords props=C16 kinds=lock
+
 // Table lookups are pure: specifications evaluate them to a single term.
 //
 //verif:pure-fn ~/pkg/nathole.getBehaviorByMode
